@@ -27,12 +27,22 @@ type Probe struct {
 	Ran    bool
 }
 
+// Preflight is one OPTIONS probe through the OPTIONS filter that carried Access-Control-Request-Method
+// (what a browser sends before a cross-origin call): the filter's two lists and whether a route function ran.
+type Preflight struct {
+	ACRM  string
+	Allow []string
+	ACAM  []string
+	Ran   bool
+}
+
 type Obs struct {
-	Probes    []Probe
-	OptAllow  []string
-	OptACAM   []string
-	OptRan    bool
-	Untouched bool
+	Probes     []Probe
+	OptAllow   []string
+	OptACAM    []string
+	OptRan     bool
+	Untouched  bool
+	Preflights []Preflight
 }
 
 func splitList(v string) []string {
@@ -61,80 +71,269 @@ func probe(c *restful.Container, rq routing.Req) (Probe, string) {
 	return p, o.Sx().String()
 }
 
+// World is a pair of twin containers (without / with the OPTIONS filter) holding the same table,
+// whose WebService objects stay at hand so that the route table of a REGISTERED WebService can be
+// changed afterwards (ws.Route after Container.Add; ws.RemoveRoute with dynamic routes).
+type World struct {
+	Plain, Filtered *restful.Container
+	Cfg             routing.Config // the table the containers hold NOW
+	ws              [2][]*restful.WebService
+	hits            int // route filters run so far: every route carries one, it runs exactly when its route function is about to
+}
+
+// route builds the route with a route-level filter that counts: a request made a route function run
+// iff the counter moved (routing.Dispatch sees that through the request context for requests it
+// builds itself; the preflight probes carry headers routing.Req does not have).
+func (w *World) route(ws *restful.WebService, s routing.Service, rd routing.RouteDecl) *restful.RouteBuilder {
+	return routing.RouteBuilder(ws, s, rd).Filter(func(req *restful.Request, resp *restful.Response, chain *restful.FilterChain) {
+		w.hits++
+		chain.ProcessFilter(req, resp)
+	})
+}
+
+// service is routing.BuildService with the counting filter on every route.
+func (w *World) service(s routing.Service) *restful.WebService {
+	ws := new(restful.WebService)
+	ws.Path(s.Root)
+	if len(s.Consumes) > 0 {
+		ws.Consumes(s.Consumes...)
+	}
+	if len(s.Produces) > 0 {
+		ws.Produces(s.Produces...)
+	}
+	for _, rd := range s.Routes {
+		ws.Route(w.route(ws, s, rd))
+	}
+	return ws
+}
+
+// NewWorld builds the twins. Public API only. dynamic = SetDynamicRoutes(true) on every WebService.
+func NewWorld(cfg routing.Config, dynamic bool) (w *World, err error) {
+	defer func() {
+		if r := recover(); r != nil {
+			w, err = nil, fmt.Errorf("build panic: %v", r)
+		}
+	}()
+	w = &World{Cfg: cloneCfg(cfg)}
+	for k := 0; k < 2; k++ {
+		c := restful.NewContainer()
+		if cfg.Router == "jsr" {
+			c.Router(restful.RouterJSR311{})
+		} else {
+			c.Router(restful.CurlyRouter{})
+		}
+		for _, s := range cfg.Services {
+			ws := w.service(s)
+			if dynamic {
+				ws.SetDynamicRoutes(true)
+			}
+			c.Add(ws)
+			w.ws[k] = append(w.ws[k], ws)
+		}
+		if k == 0 {
+			w.Plain = c
+		} else {
+			c.Filter(c.OPTIONSFilter)
+			w.Filtered = c
+		}
+	}
+	return w, nil
+}
+
+func cloneCfg(c routing.Config) routing.Config {
+	d := routing.Config{Router: c.Router, Services: append([]routing.Service{}, c.Services...)}
+	for i := range d.Services {
+		d.Services[i].Routes = append([]routing.RouteDecl{}, c.Services[i].Routes...)
+	}
+	return d
+}
+
+func (w *World) containers() []*restful.Container { return []*restful.Container{w.Plain, w.Filtered} }
+
+// Traffic sends, to both containers, what fills anything a container might remember about a URL:
+// a bare OPTIONS request, a preflight (OPTIONS naming a method in Access-Control-Request-Method) and a GET.
+func (w *World) Traffic(base routing.Req) {
+	for _, c := range w.containers() {
+		for _, m := range []string{"OPTIONS", "OPTIONS+ACRM", "GET"} {
+			rq := base
+			rq.Method = strings.TrimSuffix(m, "+ACRM")
+			hr := routing.HTTPRequest(rq)
+			if m == "OPTIONS+ACRM" {
+				hr.Header.Set("Origin", "http://verif.example")
+				hr.Header.Set("Access-Control-Request-Method", "GET")
+			}
+			func() {
+				defer func() { recover() }()
+				c.Dispatch(httptest.NewRecorder(), hr)
+			}()
+		}
+	}
+}
+
+// RemoveService removes the WebService at index si from both containers (Container.Remove).
+func (w *World) RemoveService(si int) error {
+	for k, c := range w.containers() {
+		if err := c.Remove(w.ws[k][si]); err != nil {
+			return err
+		}
+		w.ws[k] = append(w.ws[k][:si:si], w.ws[k][si+1:]...)
+	}
+	w.Cfg.Services = append(w.Cfg.Services[:si:si], w.Cfg.Services[si+1:]...)
+	return nil
+}
+
+// AddRoute adds a route to the REGISTERED WebService at index si (WebService.Route after Container.Add:
+// nothing passes through the container).
+func (w *World) AddRoute(si int, rd routing.RouteDecl) (err error) {
+	defer func() {
+		if r := recover(); r != nil {
+			err = fmt.Errorf("ws.Route panicked: %v", r)
+		}
+	}()
+	for k := range w.containers() {
+		ws := w.ws[k][si]
+		ws.Route(w.route(ws, w.Cfg.Services[si], rd))
+	}
+	w.Cfg.Services[si].Routes = append(w.Cfg.Services[si].Routes, rd)
+	return nil
+}
+
+// RemoveRoute removes route k of the registered WebService at index si with WebService.RemoveRoute
+// (needs dynamic routes). The library removes every route of that service with the same method and
+// full path; which those are is read off the exported Route values before the call.
+func (w *World) RemoveRoute(si, k int) error {
+	var gone []bool
+	for c := range w.containers() {
+		ws := w.ws[c][si]
+		before := ws.Routes()
+		if len(before) != len(w.Cfg.Services[si].Routes) || k >= len(before) {
+			return fmt.Errorf("the WebService holds %d routes, the harness thinks %d", len(before), len(w.Cfg.Services[si].Routes))
+		}
+		gone = make([]bool, len(before))
+		for j, rt := range before {
+			gone[j] = rt.Method == before[k].Method && rt.Path == before[k].Path
+		}
+		if err := ws.RemoveRoute(before[k].Path, before[k].Method); err != nil {
+			return err
+		}
+	}
+	keep := []routing.RouteDecl{}
+	for j, rd := range w.Cfg.Services[si].Routes {
+		if !gone[j] {
+			keep = append(keep, rd)
+		}
+	}
+	w.Cfg.Services[si].Routes = keep
+	return nil
+}
+
+// junkACRM: values of Access-Control-Request-Method that name no method of the table.
+var junkACRM = []string{"", " ", "GET,PUT", "*", "x y", "BREW", "GET ", "options"}
+
+func pathHash(p string) int {
+	h := uint32(2166136261)
+	for i := 0; i < len(p); i++ {
+		h = (h ^ uint32(p[i])) * 16777619
+	}
+	return int(h >> 4)
+}
+
+// acrmFor chooses the requested methods of the preflight probes for one URL from what the probes of
+// the container WITHOUT the filter found: the first routable method, the last routable method in
+// lower case, one method that is not routable there, one junk value (the latter two rotate with the URL).
+func acrmFor(path string, probes []Probe) []string {
+	var routable, not []string
+	for _, p := range probes {
+		if p.Status != 404 && p.Status != 405 {
+			routable = append(routable, p.Method)
+		} else if p.Method != "OPTIONS" {
+			not = append(not, p.Method)
+		}
+	}
+	h := pathHash(path)
+	var out []string
+	if len(routable) > 0 {
+		out = append(out, routable[0], strings.ToLower(routable[len(routable)-1]))
+		if len(routable) > 2 {
+			out = append(out, routable[1+h%(len(routable)-2)])
+		}
+	}
+	if len(not) > 0 {
+		out = append(out, not[h%len(not)])
+	}
+	return append(out, junkACRM[h%len(junkACRM)])
+}
+
 // Observe probes one URL on twin containers (without / with the OPTIONS filter).
 func Observe(cfg routing.Config, base routing.Req) (*Obs, error) {
-	return observe(cfg, nil, base)
+	w, err := NewWorld(cfg, false)
+	if err != nil {
+		return nil, err
+	}
+	return w.ObserveAt(base), nil
 }
 
 // ObserveAfterRemove: the twin containers are built with `extra` registered last, answer OPTIONS
 // and GET for the URL once, and then Remove that service again; the observation that follows must be
 // the one of containers that never held it.
 func ObserveAfterRemove(cfg routing.Config, extra routing.Service, base routing.Req) (*Obs, error) {
-	return observe(cfg, &extra, base)
+	full := cfg
+	full.Services = append(append([]routing.Service{}, cfg.Services...), extra)
+	w, err := NewWorld(full, false)
+	if err != nil {
+		return nil, err
+	}
+	w.Traffic(base)
+	if err := w.RemoveService(len(full.Services) - 1); err != nil {
+		return nil, err
+	}
+	return w.ObserveAt(base), nil
 }
 
-func observe(cfg routing.Config, extra *routing.Service, base routing.Req) (*Obs, error) {
-	full := cfg
-	if extra != nil {
-		full.Services = append(append([]routing.Service{}, cfg.Services...), *extra)
+// optionsThrough sends one OPTIONS request (optionally a preflight naming acrm) to the container with
+// the filter and decodes the two lists from the headers as sent.
+func (w *World) optionsThrough(rq routing.Req, preflight bool, acrm string) (allow, acam []string, ran bool) {
+	hr := routing.HTTPRequest(rq).WithContext(context.Background())
+	if preflight {
+		hr.Header.Set("Origin", "http://verif.example")
+		hr.Header["Access-Control-Request-Method"] = []string{acrm}
 	}
-	plain, err := routing.Build(full)
-	if err != nil {
-		return nil, err
-	}
-	filtered, err := routing.Build(full)
-	if err != nil {
-		return nil, err
-	}
-	filtered.Filter(filtered.OPTIONSFilter)
-	if extra != nil {
-		for _, c := range []*restful.Container{plain, filtered} {
-			for _, m := range []string{"OPTIONS", "GET"} {
-				rq := base
-				rq.Method = m
-				func() {
-					defer func() { recover() }()
-					c.Dispatch(httptest.NewRecorder(), routing.HTTPRequest(rq))
-				}()
-			}
-			var victim *restful.WebService
-			for _, ws := range c.RegisteredWebServices() {
-				victim = ws // registered last
-			}
-			if err := c.Remove(victim); err != nil {
-				return nil, err
-			}
-		}
-	}
+	rec := httptest.NewRecorder()
+	before := w.hits
+	func() {
+		defer func() { recover() }()
+		w.Filtered.Dispatch(rec, hr)
+	}()
+	sent := rec.Result().Header // the headers as sent, not the live map
+	return splitList(strings.Join(sent["Allow"], ",")), splitList(strings.Join(sent["Access-Control-Allow-Methods"], ",")), w.hits > before
+}
+
+// ObserveAt probes one URL on the twins as they are now.
+func (w *World) ObserveAt(base routing.Req) *Obs {
 	o := &Obs{Untouched: true}
 	for _, m := range Methods {
 		rq := base
 		rq.Method = m
-		p, canon := probe(plain, rq)
+		p, canon := probe(w.Plain, rq)
 		o.Probes = append(o.Probes, p)
 		if m == "OPTIONS" {
-			hr := routing.HTTPRequest(rq)
-			hr = hr.WithContext(context.Background())
-			rec := httptest.NewRecorder()
-			ran := false
-			func() {
-				defer func() { recover() }()
-				out := routing.Dispatch(filtered, rq)
-				ran = out.Kind == "sel"
-			}()
-			filtered.Dispatch(rec, hr)
-			sent := rec.Result().Header // the headers as sent, not the live map
-			o.OptAllow = splitList(strings.Join(sent["Allow"], ","))
-			o.OptACAM = splitList(strings.Join(sent["Access-Control-Allow-Methods"], ","))
-			o.OptRan = ran
+			o.OptAllow, o.OptACAM, o.OptRan = w.optionsThrough(rq, false, "")
 			continue
 		}
-		_, canon2 := probe(filtered, rq)
+		_, canon2 := probe(w.Filtered, rq)
 		if canon != canon2 {
 			o.Untouched = false
 		}
 	}
-	return o, nil
+	// OPTIONS probes that carry Access-Control-Request-Method (browser preflights)
+	rq := base
+	rq.Method = "OPTIONS"
+	for _, a := range acrmFor(base.Path, o.Probes) {
+		pf := Preflight{ACRM: a}
+		pf.Allow, pf.ACAM, pf.Ran = w.optionsThrough(rq, true, a)
+		o.Preflights = append(o.Preflights, pf)
+	}
+	return o
 }
 
 func (o *Obs) Sx() *sx.Node {
@@ -149,20 +348,70 @@ func (o *Obs) Sx() *sx.Node {
 	return sx.K("obs", ps, sx.Hs("optallow", o.OptAllow), sx.Hs("acam", o.OptACAM), sx.B(o.OptRan), sx.B(o.Untouched))
 }
 
+// PfSx renders the preflight probes for the driver.
+func (o *Obs) PfSx() *sx.Node {
+	n := sx.K("preflights")
+	for _, p := range o.Preflights {
+		n.List = append(n.List, sx.K("pf", sx.H(p.ACRM), sx.Hs("allow", p.Allow), sx.Hs("acam", p.ACAM), sx.B(p.Ran)))
+	}
+	return n
+}
+
+func sortedJoin(xs []string) string {
+	a := append([]string{}, xs...)
+	sort.Strings(a)
+	return strings.Join(a, ",")
+}
+
+// canonSets renders an observation with every list as a SET (what C17 speaks about): used to compare
+// containers with a past with fresh ones.
+func canonSets(o *Obs) string {
+	set := func(xs []string) string {
+		seen, out := map[string]bool{}, []string{}
+		for _, x := range xs {
+			if !seen[x] {
+				seen[x] = true
+				out = append(out, x)
+			}
+		}
+		return sortedJoin(out)
+	}
+	var sb strings.Builder
+	for _, p := range o.Probes {
+		al := "-"
+		if p.Allow != nil {
+			al = set(p.Allow)
+		}
+		fmt.Fprintf(&sb, "%s=%d[%s] ", p.Method, p.Status, al)
+	}
+	fmt.Fprintf(&sb, "| options: allow{%s} acam{%s} ran=%v untouched=%v | preflights:", set(o.OptAllow), set(o.OptACAM), o.OptRan, o.Untouched)
+	for _, p := range o.Preflights {
+		fmt.Fprintf(&sb, " %q→allow{%s} acam{%s} ran=%v", p.ACRM, set(p.Allow), set(p.ACAM), p.Ran)
+	}
+	return sb.String()
+}
+
+// canonReal: statuses and Allow sets of the probes, the Allow list of the OPTIONS filter.
 func canonReal(o *Obs) string {
 	var sb strings.Builder
 	for _, p := range o.Probes {
 		al := "-"
 		if p.Allow != nil {
-			a := append([]string{}, p.Allow...)
-			sort.Strings(a)
-			al = strings.Join(a, ",")
+			al = sortedJoin(p.Allow)
 		}
 		fmt.Fprintf(&sb, "%s=%d[%s] ", p.Method, p.Status, al)
 	}
-	oa := append([]string{}, o.OptAllow...)
-	sort.Strings(oa)
-	return sb.String() + "| options: " + strings.Join(oa, ",")
+	return sb.String() + "| options: " + sortedJoin(o.OptAllow)
+}
+
+// canonRealPf adds the filter's Access-Control-Allow-Methods set and the answers to the preflight probes.
+func canonRealPf(o *Obs) string {
+	var sb strings.Builder
+	sb.WriteString(canonReal(o) + " acam: " + sortedJoin(o.OptACAM) + " | preflights:")
+	for _, p := range o.Preflights {
+		fmt.Fprintf(&sb, " %q→allow[%s] acam[%s] ran=%v", p.ACRM, sortedJoin(p.Allow), sortedJoin(p.ACAM), p.Ran)
+	}
+	return sb.String()
 }
 
 func canonModel(n *sx.Node) string {
@@ -185,8 +434,34 @@ func canonModel(n *sx.Node) string {
 			comp = append(comp, x.Str())
 		}
 	}
-	sort.Strings(comp)
-	return sb.String() + "| options: " + strings.Join(comp, ",")
+	return sb.String() + "| options: " + sortedJoin(comp)
+}
+
+// canonModelPf: the model's side of canonRealPf (the filter model puts the computed list into both
+// headers; its preflight answers are Spec.modelPreflight).
+func canonModelPf(n *sx.Node) string {
+	comp := []string{}
+	if c := n.Find("computed"); c != nil {
+		for _, x := range c.Args() {
+			comp = append(comp, x.Str())
+		}
+	}
+	var sb strings.Builder
+	sb.WriteString(canonModel(n) + " acam: " + sortedJoin(comp) + " | preflights:")
+	if pfs := n.Find("preflights"); pfs != nil {
+		for _, p := range pfs.Args() {
+			a := p.Args()
+			strs := func(x *sx.Node) string {
+				var out []string
+				for _, y := range x.Args() {
+					out = append(out, y.Str())
+				}
+				return sortedJoin(out)
+			}
+			fmt.Fprintf(&sb, " %q→allow[%s] acam[%s] ran=%v", a[0].Str(), strs(a[1]), strs(a[2]), a[3].Atom == "1")
+		}
+	}
+	return sb.String()
 }
 
 // Check runs the stream for one router.
@@ -194,11 +469,111 @@ func Check(run *report.Run, router string, nCfg, perCfg int) error {
 	return check(run, router, nCfg, perCfg, false)
 }
 
-// CheckHistory is Check on containers with a past: the last WebService of the generated table is
-// registered, sees traffic (OPTIONS included) and is removed again before the observation; the
-// model and the predicate are given the table without it.
+// CheckHistory is Check on containers with a past. After traffic to the URL (bare OPTIONS, a
+// preflight, GET) the registration state changes in one of three ways, then the URL is observed:
+//   - service-removed: the last WebService of the generated table is registered and removed again
+//     (Container.Remove);
+//   - route-added: a route of the generated table is missing at first and is added with ws.Route to
+//     its WebService AFTER Container.Add (the library supports that without dynamic routes);
+//   - route-removed: a route of the generated table is removed with ws.RemoveRoute
+//     (SetDynamicRoutes(true)) from its registered WebService.
+//
+// Route changes are chosen, three times out of four, among those that change what the OPTIONS filter
+// of a fresh container lists for the URL. The model and the predicate are given the FINAL table, and
+// the observation must equal the one of freshly built containers holding the final table.
 func CheckHistory(run *report.Run, router string, nCfg, perCfg int) error {
 	return check(run, router, nCfg, perCfg, true)
+}
+
+// freshAllow: what the OPTIONS filter of a fresh container holding cfg lists for the URL.
+func freshAllow(cfg routing.Config, rq routing.Req) (string, bool) {
+	w, err := NewWorld(cfg, false)
+	if err != nil {
+		return "", false
+	}
+	rq.Method = "OPTIONS"
+	al, _, _ := w.optionsThrough(rq, false, "")
+	return sortedJoin(al), true
+}
+
+// withoutRoute / routeLast: the table without route k of service si; with that route moved to the end
+// of its service (where ws.Route puts it).
+func withoutRoute(cfg routing.Config, si, k int) routing.Config {
+	d := cloneCfg(cfg)
+	rs := d.Services[si].Routes
+	d.Services[si].Routes = append(rs[:k:k], rs[k+1:]...)
+	return d
+}
+
+// tableString renders a table on one line.
+func tableString(cfg routing.Config) string {
+	var sb strings.Builder
+	for i, s := range cfg.Services {
+		if i > 0 {
+			sb.WriteString(" ; ")
+		}
+		fmt.Fprintf(&sb, "ws[root %q]:", s.Root)
+		for _, rd := range s.Routes {
+			fmt.Fprintf(&sb, " %s %q", rd.Method, rd.Rel)
+		}
+	}
+	return sb.String()
+}
+
+// routeChange is one change of the route table of a registered WebService.
+type routeChange struct {
+	Kind  string // "route-added" | "route-removed"
+	Svc   int    // index of the WebService
+	Index int    // route-removed: index of the route in the service's list
+	Route routing.RouteDecl
+}
+
+func (ch routeChange) String(cfg routing.Config) string {
+	if ch.Kind == "route-added" {
+		return fmt.Sprintf("ws[root %q].Route(%s %q) after Container.Add", cfg.Services[ch.Svc].Root, ch.Route.Method, ch.Route.Rel)
+	}
+	return fmt.Sprintf("ws[root %q].RemoveRoute(path of %q, %s) (dynamic routes)", cfg.Services[ch.Svc].Root, ch.Route.Rel, ch.Route.Method)
+}
+
+// genRouteChange draws a route change for the generated table `full` and the URL of rq. It returns
+// the table to start from and the change; the final table is whatever World.Cfg is afterwards.
+func genRouteChange(r *rng.R, full routing.Config, rq routing.Req) (routing.Config, routeChange, bool) {
+	type cand struct{ si, k int }
+	var all []cand
+	for si, s := range full.Services {
+		for k := range s.Routes {
+			all = append(all, cand{si, k})
+		}
+	}
+	if len(all) == 0 {
+		return full, routeChange{}, false
+	}
+	add := r.Chance(1, 2)
+	pick := all[r.Intn(len(all))]
+	if r.Chance(3, 4) {
+		// a change that matters at this URL
+		with, ok := freshAllow(full, rq)
+		for _, i := range r.Perm(len(all)) {
+			c := all[i]
+			if without, ok2 := freshAllow(withoutRoute(full, c.si, c.k), rq); ok && ok2 && with != without {
+				pick = c
+				break
+			}
+		}
+	}
+	rd := full.Services[pick.si].Routes[pick.k]
+	if add {
+		return withoutRoute(full, pick.si, pick.k), routeChange{Kind: "route-added", Svc: pick.si, Route: rd}, true
+	}
+	return full, routeChange{Kind: "route-removed", Svc: pick.si, Index: pick.k, Route: rd}, true
+}
+
+// apply performs the change on both twins.
+func (ch routeChange) apply(w *World) error {
+	if ch.Kind == "route-added" {
+		return w.AddRoute(ch.Svc, ch.Route)
+	}
+	return w.RemoveRoute(ch.Svc, ch.Index)
 }
 
 func check(run *report.Run, router string, nCfg, perCfg int, history bool) error {
@@ -209,10 +584,12 @@ func check(run *report.Run, router string, nCfg, perCfg int, history bool) error
 		base = rng.New(run.Seed*999331 + 77 + uint64(len(router)))
 	}
 	type cs struct {
-		cfg  routing.Config
-		req  routing.Req
-		obs  *Obs
-		line string
+		cfg   routing.Config
+		req   routing.Req
+		obs   *Obs
+		fresh *Obs // history: freshly built twins holding the final table
+		past  []string
+		line  string
 	}
 	var cases []cs
 	var lines []string
@@ -247,31 +624,49 @@ func check(run *report.Run, router string, nCfg, perCfg int, history bool) error
 			routing.SkippedBuild++
 			continue
 		}
-		var removed *routing.Service
 		full := cfg
-		if history {
-			if len(cfg.Services) < 2 {
-				continue
-			}
-			last := cfg.Services[len(cfg.Services)-1]
-			removed = &last
-			cfg.Services = cfg.Services[:len(cfg.Services)-1]
-		}
 		for qi := 0; qi < perCfg; qi++ {
-			rq := routing.GenReq(r, o, full) // URLs of the removed service too
-			var obs *Obs
+			rq := routing.GenReq(r, o, full) // URLs of removed services and routes too
+			c := cs{cfg: cfg, req: rq}
 			var err error
-			if removed != nil {
-				obs, err = ObserveAfterRemove(cfg, *removed, rq)
+			switch {
+			case !history:
+				c.obs, err = Observe(cfg, rq)
+			case len(full.Services) >= 2 && r.Chance(1, 3):
+				last := full.Services[len(full.Services)-1]
+				c.cfg = routing.Config{Router: full.Router, Services: full.Services[:len(full.Services)-1]}
+				c.obs, err = ObserveAfterRemove(c.cfg, last, rq)
+				c.past = []string{fmt.Sprintf("Container.Add(ws[root %q]) last", last.Root), "OPTIONS, OPTIONS + Access-Control-Request-Method, GET for the URL", "Container.Remove of that WebService"}
 				run.Count(router + ":observed-after-add-traffic-remove")
-			} else {
-				obs, err = Observe(cfg, rq)
+			default:
+				start, ch, ok := genRouteChange(r, full, rq)
+				if !ok {
+					continue
+				}
+				w, err2 := NewWorld(start, ch.Kind == "route-removed" || r.Chance(1, 4))
+				if err2 != nil {
+					return err2
+				}
+				w.Traffic(rq)
+				if err = ch.apply(w); err == nil {
+					c.obs = w.ObserveAt(rq)
+					c.cfg = w.Cfg
+					c.past = []string{"table at first (router " + start.Router + "): " + tableString(start), "OPTIONS, OPTIONS + Access-Control-Request-Method, GET for the URL", ch.String(start)}
+					run.Count(router + ":observed-after-traffic-" + ch.Kind)
+				}
 			}
 			if err != nil {
 				return err
 			}
-			c := cs{cfg: cfg, req: rq, obs: obs}
-			c.line = sx.K("allow", sx.N(len(cases)), cfg.Sx(), rq.Sx(), sx.Hs("methods", Methods), obs.Sx()).String()
+			if history {
+				if c.fresh, err = Observe(c.cfg, rq); err != nil {
+					return err
+				}
+				if sortedJoin(c.fresh.OptAllow) != func() string { s, _ := freshAllow(full, rq); return s }() {
+					run.Count(router + ":history-changes-what-the-filter-lists-for-the-URL")
+				}
+			}
+			c.line = sx.K("allow", sx.N(len(cases)), c.cfg.Sx(), rq.Sx(), sx.Hs("methods", Methods), c.obs.Sx(), c.obs.PfSx()).String()
 			lines = append(lines, c.line)
 			cases = append(cases, c)
 		}
@@ -293,8 +688,8 @@ func check(run *report.Run, router string, nCfg, perCfg int, history bool) error
 			}
 		}
 		run.Evaluations++
-		run.TracesValidated += 2 * len(Methods)
-		real, model := canonReal(c.obs), canonModel(n)
+		run.TracesValidated += 2*len(Methods) + len(c.obs.Preflights)
+		real, model := canonRealPf(c.obs), canonModelPf(n)
 		nontrivial := false
 		for _, p := range c.obs.Probes {
 			run.Count(fmt.Sprintf("%s:status:%d", router, p.Status))
@@ -302,11 +697,16 @@ func check(run *report.Run, router string, nCfg, perCfg int, history bool) error
 				nontrivial = true
 			}
 		}
+		run.Count(fmt.Sprintf("%s:preflight-probes:%d", router, len(c.obs.Preflights)))
 		if nontrivial {
 			run.Distinct[router+"|"+c.line] = true
 		}
 		if len(run.Samples) < 3 && nontrivial && run.Evaluations%13 == 0 {
 			run.Sample(map[string]interface{}{"input": routing.Human(&c.cfg, c.req), "observed": real})
+		}
+		human := routing.Human(&c.cfg, c.req)
+		if c.past != nil {
+			human = map[string]interface{}{"history_before_the_observation": c.past, "final_table_and_url": human}
 		}
 		known := ""
 		switch {
@@ -317,21 +717,36 @@ func check(run *report.Run, router string, nCfg, perCfg int, history bool) error
 		case router == "curly" && spec["normalPath"] == "0":
 			known = "F15"
 		}
+		// containers with a past answer like fresh ones (model-free oracle; no known class excuses a difference)
+		if c.fresh != nil {
+			if f, h := canonSets(c.fresh), canonSets(c.obs); f != h {
+				if bad < 3 {
+					bad++
+					run.AddViolation(report.Violation{Kind: "counterexample", What: "C17: after traffic to the URL and a change of the registration state (see history), the statuses / Allow sets / method sets listed by the OPTIONS filter differ from those of freshly built containers holding the same final table (for which the sets are the routable methods, or the case lies in a known class)",
+						Case: []string{c.line}, Human: human, Real: h, Model: "fresh containers: " + f})
+				}
+				continue
+			}
+		}
 		if spec["C17"] != "1" {
 			if known != "" && real == model {
 				run.KnownHits[known]++
 			} else if bad < 3 {
 				bad++
-				run.AddViolation(report.Violation{Kind: "counterexample", What: "the real Allow headers falsify Spec.c17Holds (Allow of a 405 / of the OPTIONS filter ≠ the methods not answered 404 or 405, or the filter ran a route function or changed another method)",
-					Case: []string{c.line}, Human: routing.Human(&c.cfg, c.req), Real: real, Model: model})
+				what := "the real Allow headers falsify Spec.c17HoldsAll (Allow of a 405 / of the OPTIONS filter ≠ the methods not answered 404 or 405, or the filter ran a route function or changed another method)"
+				if spec["C17bare"] == "1" {
+					what = "the answer of the OPTIONS filter to an OPTIONS request that carries Access-Control-Request-Method falsifies Spec.c17HoldsAll (its Allow or Access-Control-Allow-Methods list ≠ the methods not answered 404 or 405, or a route function ran)"
+				}
+				run.AddViolation(report.Violation{Kind: "counterexample", What: what,
+					Case: []string{c.line}, Human: human, Real: real, Model: model})
 			}
 			continue
 		}
 		if real != model && known == "" && dis < 3 {
 			dis++
 			run.DisagreementsChecked++
-			run.AddViolation(report.Violation{Kind: "correspondence", NoInput: true, What: "model and implementation disagree on statuses / Allow sets / computed methods of the C17 stream (" + router + "); the property held on the real observation",
-				Theorem: "correspondence stream allow-" + router, Case: []string{c.line}, Human: routing.Human(&c.cfg, c.req), Real: real, Model: model})
+			run.AddViolation(report.Violation{Kind: "correspondence", NoInput: true, What: "model and implementation disagree on statuses / Allow sets / computed methods / preflight answers of the C17 stream (" + router + "); the property held on the real observation",
+				Theorem: "correspondence stream allow-" + router, Case: []string{c.line}, Human: human, Real: real, Model: model})
 		}
 	}
 	run.Extra["skipped_tables_F11"] = routing.SkippedBuild
@@ -339,7 +754,9 @@ func check(run *report.Run, router string, nCfg, perCfg int, history bool) error
 }
 
 // CheckSlash (C14): the OPTIONS filter's Allow / Access-Control-Allow-Methods and the statuses and
-// Allow sets of every probed method are the same for p and for p/.
+// Allow sets of every probed method are the same for p and for p/ — on freshly built containers, and
+// (every other pair) on ONE pair of containers with a past: traffic to only one of the two forms, then
+// a route added to / removed from a registered WebService, then both forms are observed.
 func CheckSlash(run *report.Run, router string, nCfg, perCfg int) error {
 	o := routing.FullOpts(router)
 	o.AllowRe, o.AllowSuf, o.AllowWild, o.AllowVerb, o.RootVars, o.RootRe, o.Conds = false, false, false, false, false, false, false
@@ -359,17 +776,42 @@ func CheckSlash(run *report.Run, router string, nCfg, perCfg int) error {
 			}
 			rq2 := rq
 			rq2.Path += "/"
-			a, err := Observe(cfg, rq)
-			if err != nil {
-				return err
+			var a, b *Obs
+			var err error
+			human := map[string]interface{}{"table": routing.Human(&cfg, rq), "p": rq.Path, "p/": rq2.Path}
+			if qi%2 == 1 {
+				// one pair of containers with a past
+				if start, ch, ok := genRouteChange(r, cfg, rq); ok {
+					w, err2 := NewWorld(start, ch.Kind == "route-removed" || r.Chance(1, 4))
+					if err2 != nil {
+						return err2
+					}
+					first := rq
+					if r.Chance(1, 2) {
+						first = rq2
+					}
+					w.Traffic(first)
+					if err = ch.apply(w); err != nil {
+						return err
+					}
+					a, b = w.ObserveAt(rq), w.ObserveAt(rq2)
+					human = map[string]interface{}{"history_before_the_observation": []string{"table at first (router " + start.Router + "): " + tableString(start),
+						fmt.Sprintf("OPTIONS, OPTIONS + Access-Control-Request-Method, GET for %q only", first.Path), ch.String(start), "then p and p/ are observed on the same containers"},
+						"final_table": routing.Human(&w.Cfg, rq), "p": rq.Path, "p/": rq2.Path}
+					run.Count(router + ":slash-pairs-after-traffic-to-one-form-and-" + ch.Kind)
+				}
 			}
-			b, err := Observe(cfg, rq2)
-			if err != nil {
-				return err
+			if a == nil {
+				if a, err = Observe(cfg, rq); err != nil {
+					return err
+				}
+				if b, err = Observe(cfg, rq2); err != nil {
+					return err
+				}
 			}
 			run.Evaluations++
 			run.TracesValidated += 4 * len(Methods)
-			ca, cb := canonReal(a), canonReal(b)
+			ca, cb := canonReal(a)+" acam: "+sortedJoin(a.OptACAM), canonReal(b)+" acam: "+sortedJoin(b.OptACAM)
 			if len(a.OptAllow) > 0 {
 				run.Distinct[router+"|slash|"+cfg.Sx().String()+rq.Path] = true
 				run.Count(router + ":options-allow-nonempty")
@@ -377,7 +819,7 @@ func CheckSlash(run *report.Run, router string, nCfg, perCfg int) error {
 			if ca != cb && bad < 3 {
 				bad++
 				run.AddViolation(report.Violation{Kind: "counterexample", What: "C14: the Allow headers (405 answers, OPTIONS filter) or statuses differ between p and p/",
-					Human: map[string]interface{}{"table": routing.Human(&cfg, rq), "p": rq.Path, "p/": rq2.Path}, Real: ca, Model: cb})
+					Human: human, Real: ca, Model: cb})
 			}
 		}
 	}
